@@ -123,7 +123,10 @@ class TradeNoUpdate(object):
         if not (px == px) or px <= 0:
             return True
         amount = self.frac * target.value
-        if self.how == "transact":
+        if self.how == "lazy":
+            # default flags: the tree is only marked stale (what HedgeRisks does with its hedge trades); whoever reads next refreshes it
+            target.transact(amount / px, child=self.child)
+        elif self.how == "transact":
             # a trade booked on the security itself, with the refresh left to whoever drives the tree
             target._create_child_if_needed(self.child)
             target.children[self.child].transact(amount / px, update=False)
@@ -284,7 +287,7 @@ def mk_algo(bt, a, spec, frames):
     if name == "RebalanceOverTime":
         al = A.RebalanceOverTime(p["n"])
         if p.get("run_always"):
-            al.run_always = True
+            al = A.run_always(al)  # the way the algo's docstring asks for it
         return al
     if name == "RunIfOutOfBounds":
         return A.RunIfOutOfBounds(p["tolerance"])
@@ -294,12 +297,12 @@ def mk_algo(bt, a, spec, frames):
     if name == "ClosePositionsAfterDates":
         al = A.ClosePositionsAfterDates(p["frame"])
         if p.get("run_always"):
-            al.run_always = True
+            al = A.run_always(al)
         return al
     if name == "RollPositionsAfterDates":
         al = A.RollPositionsAfterDates(p["frame"])
         if p.get("run_always"):
-            al.run_always = True
+            al = A.run_always(al)
         return al
     if name == "ReplayTransactions":
         return A.ReplayTransactions(p["frame"])
